@@ -29,7 +29,7 @@ ASSUMPTIONS = [
 NSHARDS = {"quick": 16, "thorough": 16}
 N_PRE = {"quick": 24, "thorough": 2500}
 N_RND = {"quick": 30, "thorough": 3000}
-REQUIRE = {"rounds_checked": 5000, "rounds_with_waiting_work": 1000, "suspensions": 300, "one_tick_suspensions": 40,
+REQUIRE = {"scale:run_with_more_than_128_suspensions_on_one_pool": 1, "rounds_checked": 5000, "rounds_with_waiting_work": 1000, "suspensions": 300, "one_tick_suspensions": 40,
            "resumed_jobs": 100, "first_containers": 2000, "sim_runs:priority/multi": 200, "sim_runs:priority/single": 50,
            "sim_runs:priority-pool/multi": 100, "rounds_assigning_while_higher_or_equal_waits": 20}
 
